@@ -85,7 +85,11 @@ pub fn run(ctx: &Ctx) -> i32 {
 }
 
 fn run_behaviour(ctx: &Ctx) -> i32 {
-    let b = Behaviour {
+    crate::props::behave::run(ctx, &behaviour())
+}
+
+pub fn behaviour() -> Behaviour {
+    Behaviour {
         prop: "C02",
         rule: "structs and enums (all shapes, generics instantiated) with PartialEq educed and per-field ignore/method carried by PartialEq(..) or Eq(..); \
                values per variant: a base value, every single-field variation, all-different values; every ordered pair is compared with a rendered \
@@ -100,6 +104,5 @@ fn run_behaviour(ctx: &Ctx) -> i32 {
         thorough: 8000,
         batch: 25,
         assumptions: &["custom methods m_eq_le (asymmetric) and m_eq_mod make argument order and method identity observable"],
-    };
-    crate::props::behave::run(ctx, &b)
+    }
 }
